@@ -79,7 +79,7 @@ def specRun (cfg : Config) (m : MatcherI) (σ : Script) (ls : List Bytes) : List
           ++ [.finish (lineRun cfg m σ 1 0 (ln0 cfg) false ls).endOff none],
         finRes (σ (1 + (lineRun cfg m σ 1 0 (ln0 cfg) false ls).evs.length)))
 
-theorem finish_eq (σ : Script) (st : Core) (n : Nat) (bo : Option Nat) :
+theorem finish_events (σ : Script) (st : Core) (n : Nat) (bo : Option Nat) :
     (finish σ st n bo).1.events = st.events ++ [.finish n bo] ∧
     (finish σ st n bo).2 = finRes (σ st.events.length) := by
   unfold finish emit
@@ -181,7 +181,7 @@ theorem sliceByLine_specRun {cfg : Config} (m : MatcherI) (σ : Script) (h : NoC
       simp only [lineRun] at hr
       rw [← hr]
       simp only [if_true]
-      have hf := finish_eq σ c0 (byteCount c0) c0.binaryByteOffset
+      have hf := finish_events σ c0 (byteCount c0) c0.binaryByteOffset
       simp only [Run.events]
       rw [hf.1, hf.2, c_ev]
       simp [byteCount, ← hc0, Core.new]
@@ -193,7 +193,7 @@ theorem sliceByLine_specRun {cfg : Config} (m : MatcherI) (σ : Script) (h : NoC
         simp
       | stop =>
         dsimp only
-        have hf := finish_eq σ st' (byteCount st') st'.binaryByteOffset
+        have hf := finish_events σ st' (byteCount st') st'.binaryByteOffset
         simp only [Run.events]
         rw [hf.1, hf.2, hA.ev, c_ev]
         have he := hA.endp (by rw [hout]; decide)
@@ -201,7 +201,7 @@ theorem sliceByLine_specRun {cfg : Config} (m : MatcherI) (σ : Script) (h : NoC
         simp [byteCount, hA.bin, ← he, Nat.add_comm]
       | done =>
         dsimp only
-        have hf := finish_eq σ st' (byteCount st') st'.binaryByteOffset
+        have hf := finish_events σ st' (byteCount st') st'.binaryByteOffset
         simp only [Run.events]
         rw [hf.1, hf.2, hA.ev, c_ev]
         have hls : ls ≠ [] := by intro hc; rw [hc] at hfl; exact hne hfl.symm
@@ -215,7 +215,7 @@ theorem sliceByLine_specRun {cfg : Config} (m : MatcherI) (σ : Script) (h : NoC
     dsimp only
     rw [if_neg (by decide)]
     dsimp only
-    have hf := finish_eq σ ({ Core.new cfg true with events := (Core.new cfg true).events ++ [Event.begin] } : Core)
+    have hf := finish_events σ ({ Core.new cfg true with events := (Core.new cfg true).events ++ [Event.begin] } : Core)
       (byteCount { Core.new cfg true with events := (Core.new cfg true).events ++ [Event.begin] })
       ({ Core.new cfg true with events := (Core.new cfg true).events ++ [Event.begin] } : Core).binaryByteOffset
     simp only [Run.events]
